@@ -47,6 +47,7 @@ fn main() {
         ("replay", "ods_text") => props::ods_text::replay(&args),
         ("replay", "bin_text") => props::bin_text::replay(&args),
         ("drive", "bin_text") => props::bin_text::drive(&args),
+        ("replay", "xls_merge") => props::xls_merge::replay(&args),
         ("replay", "de") => props::de::replay(&args),
         ("drive", "de") => props::de::drive(&args),
         ("replay", "cfb") => isolate::run_replay(&args, props::cfb::replay),
